@@ -447,6 +447,18 @@ def detect_variants():
     except Exception as e:
         v['jd_fixed'] = False
         notes.append('joint de-duplication probe raised %r' % e)
+    # Arc.intersect(Line), algebraic branch: every (x root, y root) combination tried (pinned)
+    # or each x root paired with its own y root
+    try:
+        arc = Arc(49.10460182528382 + 67.33973585572906j, 74.45441113047303 + 74.45441113047303j, 0.0, True, True,
+                  1.1285834236142733 - 11.49066280063579j)
+        r = arc.intersect(Line(16.34396621855292 - 85.40089376229798j, 16.343964195274165 + 300.1465124459535j))
+        v['al_fixed'] = len(r) == 1
+        if len(r) not in (1, 2):
+            notes.append('arc-line pairing probe returned %d pairs' % len(r))
+    except Exception as e:
+        v['al_fixed'] = False
+        notes.append('arc-line pairing probe raised %r' % e)
     v['notes'] = notes
     _VARIANTS = v
     return v
